@@ -97,6 +97,28 @@ pub fn plan(property: &str, seed: u64, idx: u64, thorough: bool) -> CasePlan {
             p.max_val = 20_000;
             steps = rng.range(30, 250) as usize;
         }
+        "C15" => {
+            // journal round trip: nothing is flushed (64 MiB memtables, no maintenance), every reopen
+            // reads everything from the journal, alternating the journal compression setting
+            p.w_rotate = 0;
+            p.w_step = 0;
+            p.w_drain = 0;
+            p.w_major = 0;
+            p.w_gc = 0;
+            p.w_ingest = 0;
+            p.w_reopen = 3;
+            p.w_clear = 3;
+            p.w_batch = 20;
+            p.w_tx = 8;
+            p.w_remove_weak = 4;
+            p.no_weak = false;
+            fronts = vec![0, 1, 2];
+            p.big_values = true;
+            p.max_val = if thorough { 4 * 1_024 * 1_024 } else { 262_144 };
+            steps = rng.range(20, 120) as usize;
+            threaded = false;
+            scale = 1;
+        }
         "C18" => {
             p.n_ks = rng.range(2, 4) as u8;
             p.ks_prefix = true;
@@ -145,6 +167,9 @@ pub fn plan(property: &str, seed: u64, idx: u64, thorough: bool) -> CasePlan {
     let ks_cfgs: Vec<u32> = (0..p.n_ks)
         .map(|_| {
             let mut c = pick_ks_cfg(&mut rng, false);
+            if property == "C15" {
+                c |= 3; // 64 MiB memtable
+            }
             if fifo_case {
                 c |= 1 << 9;
                 // generous memtable so that fewer than ~20 flushes happen
@@ -367,6 +392,7 @@ pub fn run_case(plan: &CasePlan, seed: u64, idx: u64, fixed_ops: Option<Vec<Op>>
     hooks::reset_counts();
     let mut ex = Exec::new(&dir, plan.dbcfg.clone(), mix(&[seed, idx, 7]));
     ex.filtered = plan.property == "C18";
+    ex.flip_journal_lz4_on_reopen = plan.property == "C15";
     let res = catch_unwind(AssertUnwindSafe(|| -> R<()> {
         let mut rng = Rng::new(mix(&[seed, idx, 99]));
         let mut gen = Gen::new(mix(&[seed, idx, 1]), plan.profile.clone());
@@ -511,9 +537,12 @@ pub fn main(args: &Args) -> i32 {
         total.add("ops", out.ops.len() as u64);
         crate::watchdog::set_partial("model", &property, &total);
         let flushes = out.stats.get("point.worker.flush.after_run");
-        let nontrivial = flushes > 0
-            && out.stats.get("ks_with_tables_below_l0") > 0
-            && out.stats.get("overwrite_after_flush") > 0;
+        let nontrivial = if property == "C15" {
+            // journal-only round trip: at least one reopen that read data back from the journal
+            out.stats.get("op.reopen") > 0 && out.stats.get("journal_compression_flips") > 0
+        } else {
+            flushes > 0 && out.stats.get("ks_with_tables_below_l0") > 0 && out.stats.get("overwrite_after_flush") > 0
+        };
         emit(&J::obj(vec![
             ("t", J::s("case")),
             ("idx", J::U(idx)),
